@@ -425,6 +425,13 @@ def generator_rules(ctx, pid, gen_rel, fun_rel, codec):
             probs = [('any path', prob)] if prob else []
         empty = not kinds['enc'] and not kinds['dec']
         ok = not probs
+        if not ok:
+            loose = cgen.unattributed_templates(f, gres)
+            if loose:
+                ctx.instance(R3, '%s enc{%s} dec{%s}' % (Model.qual(f), ','.join(sorted(kinds['enc'])), ','.join(sorted(kinds['dec']))), 'undecided',
+                             '%d helper templates (%r ...) are built where their side cannot be attributed (nested function, callback, neutral name)' % (len(loose), loose[0].value[:50]),
+                             nontrivial=False, node=f, file=gen_rel)
+                continue
         ctx.instance(R3, '%s enc{%s} dec{%s}' % (Model.qual(f), ','.join(sorted(kinds['enc'])), ','.join(sorted(kinds['dec']))),
                      ('paired' if not empty else 'emits nothing') if ok else 'VIOLATION', node=f, file=gen_rel)
         if not ok:
@@ -448,10 +455,12 @@ def generator_rules(ctx, pid, gen_rel, fun_rel, codec):
 
     # ---- R5 reject, don't mis-translate (decided on the path summaries of the four dispatching methods)
     summ = {}
+    dm = {}
     for mn in ('format_type', 'format_type_inner', 'generate_type_declaration_process', 'generate_definition_inner_process'):
-        f = g.methods.get(mn)
-        if f is None:
+        r_ = g.find_method(mn)          # the generator's own method, or the one it inherits from utils.Generator
+        if r_ is None:
             raise AnalysisError('%s.%s vanished' % (gen_rel, mn))
+        f = dm[mn] = r_[1]
         summ[mn] = cgen.dispatch_summary(f, g)
         if summ[mn] is None:
             ctx.instance(R5, '%s.%s' % (gen_rel, mn), 'undecided', 'too many paths', nontrivial=False, node=f, file=gen_rel)
@@ -461,9 +470,9 @@ def generator_rules(ctx, pid, gen_rel, fun_rel, codec):
     ref = sets.get('format_type', set())
     for mn, s_ in sorted(sets.items()):
         ok = s_ == ref
-        ctx.instance(R5, '%s.%s handles %s' % (gen_rel, mn, sorted(s_)), 'same set' if ok else 'VIOLATION', node=g.methods[mn], file=gen_rel)
+        ctx.instance(R5, '%s.%s handles %s' % (gen_rel, mn, sorted(s_)), 'same set' if ok else 'VIOLATION', node=dm[mn], file=gen_rel)
         if not ok:
-            ctx.violation(R5, gen_rel, g.methods[mn], '%s::_Generator.%s' % (gen_rel, mn),
+            ctx.violation(R5, gen_rel, dm[mn], '%s::_Generator.%s' % (gen_rel, mn),
                           'the dispatch chains disagree on the supported classes: %s handles %s, format_type handles %s -- a type accepted by one pass is dropped by another'
                           % (mn, sorted(s_), sorted(ref)), stmt='dispatch sets differ')
 
@@ -478,13 +487,13 @@ def generator_rules(ctx, pid, gen_rel, fun_rel, codec):
             # generate() runs the declaration pass first: an unsupported class is rejected there,
             # provided that pass raises for every other class and handles the same classes
             ok = else_raises('generate_type_declaration_process')[0] and sets['generate_definition_inner_process'] == sets['generate_type_declaration_process']
-        ctx.instance(R5, '%s.%s else-branch' % (gen_rel, mn), 'raises' if ok else 'VIOLATION', node=g.methods[mn], file=gen_rel)
+        ctx.instance(R5, '%s.%s else-branch' % (gen_rel, mn), 'raises' if ok else 'VIOLATION', node=dm[mn], file=gen_rel)
         if not ok:
             how = 'no else'
             for e in rest:
                 if e[2] != 'raise':
                     how = ('return %s' % ast.unparse(e[3])) if e[3] is not None else e[2]
-            ctx.violation(R5, gen_rel, g.methods[mn], '%s::_Generator.%s::else' % (gen_rel, mn),
+            ctx.violation(R5, gen_rel, dm[mn], '%s::_Generator.%s::else' % (gen_rel, mn),
                           'an unsupported type falls through %s without an error (%s): it is accepted and silently not encoded' % (mn, how), stmt='else does not raise')
         # every handled class must produce something: not an empty literal, and not a call of a method that returns empty
         seen_cls = set()
@@ -500,9 +509,9 @@ def generator_rules(ctx, pid, gen_rel, fun_rel, codec):
                     if r and cgen.method_returns_empty(r[1]):
                         callee_empty = r[1]
                 ok = not empty and callee_empty is None
-                ctx.instance(R5, '%s.%s[%s]' % (gen_rel, mn, cname_), 'emits code' if ok else 'VIOLATION', nontrivial=False, node=g.methods[mn], file=gen_rel)
+                ctx.instance(R5, '%s.%s[%s]' % (gen_rel, mn, cname_), 'emits code' if ok else 'VIOLATION', nontrivial=False, node=dm[mn], file=gen_rel)
                 if not ok:
-                    tgt = callee_empty if callee_empty is not None else g.methods[mn]
+                    tgt = callee_empty if callee_empty is not None else dm[mn]
                     ctx.violation(R5, gen_rel, tgt, '%s::_Generator.%s[%s]' % (gen_rel, mn, cname_),
                                   'a member of class %s is accepted by %s but %s produces nothing: the value is silently left out of the encoding and not decoded '
                                   '(the generator must reject what it cannot translate)' % (cname_, mn, ('%s()' % callee_empty.name) if callee_empty is not None else 'the branch'),
